@@ -8,7 +8,7 @@ import subprocess
 from vlib import core, runner
 from .base import Check
 
-OP_PREFIXES = ("C ", "N ", "D ", "X ", "S ", "T ", "L", "Q ")
+OP_PREFIXES = ("C ", "N ", "D ", "X ", "S ", "T ", "L", "Q ", "A ", "R ", "G")
 
 
 class C07(Check):
@@ -16,7 +16,10 @@ class C07(Check):
     required_theorems = ["available_spec", "available_self", "group_state_spec", "reachable_spec",
                          "too_deep_unreachable", "model_query_meets_spec", "ranked_excludes_cycles",
                          "cycle_check_sound", "initial_load_sound", "cycle_check_complete", "cycle_check_iff_acyclic", "model_load_meets_spec",
-                         "self_dependency_rejected", "terminates_on_accepted"]
+                         "self_dependency_rejected", "terminates_on_accepted",
+                         "acyclic_iff_no_closed_walk", "no_cycle_iff_ranked", "cycle_check_iff_no_cycle",
+                         "runtime_add_refused_unchanged", "runtime_adds_stay_acyclic", "model_runtime_add_meets_spec",
+                         "registry_refines_set", "fresh_load_spec", "runtime_equals_fresh_load"]
     technique = ("Lean 4 proof (decision logic stated outright, fixed-point uniqueness by induction on a ranking, DFS invariant "
                  "'finished list is topologically sorted') over a hand-written model; correspondence by exhaustive + random differential "
                  "execution of Checkable::IsReachable on real Host/Service/Dependency objects and of the config-load path "
@@ -27,15 +30,19 @@ class C07(Check):
                   "(no bound on graph size); the recursion-limit branch answers unreachable; the DependencyCycleChecker accepts a batch only if "
                   "registered graph + batch + implicit service->host edges are acyclic (given the registered graph is), accepts every acyclic one "
                   "(accepted <=> acyclic w.r.t. a DFS-independent peeling decision, for n checkables with all edges among them), "
-                  "rejects self-dependencies, and on accepted configurations IsReachable's recursion depth is bounded independently of the limit. "
+                  "rejects self-dependencies, and on accepted configurations IsReachable's recursion depth is bounded independently of the limit; "
+                  "accepted <=> no non-empty closed walk (standard cycle definition, pigeonhole formalised); a runtime addition closing a cycle is refused "
+                  "and leaves the graph unchanged; for every sequence of runtime AddDependency/RemoveDependency the per-child views equal the live "
+                  "dependencies grouped by key and the registry equals what a fresh load of the live set builds. "
                   "The model is tied to the code by running the real IsReachable for all checkables x 3 aspects on exhaustive small graphs x state "
                   "assignments, random graphs with runtime add/remove, chains around the 256 limit, and by loading generated configurations "
                   "(one fresh process each) and comparing accepted/'Dependency cycle' with the model; the same specification predicates "
                   "(fixed-point equation, live dependency set, cycle => rejected) are evaluated on the implementation's own observations")
     level_note = ("Trusted: Lean kernel (+ propext, Classical.choice, Quot.sound), the model's correspondence being sampled, harness/driver. "
                   "Acyclicity is expressed by a ranking certificate; a ranking excludes every cycle (proved) and exists whenever peeling empties the graph (proved). "
-                  "Not modelled: OnReachabilityChanged/OnChildRegistered fan-out, Icinga DB identifiers, the text of the cycle error, "
-                  "the registry's internal sharing beyond group counts and registry size (compared, not proved).")
+                  "The registry (Register/Unregister/AddDependency/RemoveDependency/PushDependencyGroupsToRegistry) is modelled and proved equal to a "
+                  "fresh load after every runtime sequence (registry_refines_set, runtime_equals_fresh_load); a group pointer is represented by the "
+                  "group's identity. Not modelled: OnReachabilityChanged/OnChildRegistered/OnChildRemoved fan-out, Icinga DB identifiers, the text of the cycle error.")
     trusted_base = [
         "modelled, not verified: Dependency::IsAvailable, DependencyGroup::GetState, Checkable::IsReachable, DependencyCycleChecker/"
         "BeforeOnAllConfigLoadedHandler, per-checkable group keys and registry size; TimePeriod::IsInside enters as an oracle input "
@@ -108,6 +115,122 @@ class C07(Check):
             i, rc, err = errors[0]
             raise core.TieBroken("harness:c07:cfg-run", f"{len(errors)} configuration processes failed; first: case {i} rc={rc}\n{err}\n" +
                                  "\n".join(cases[i]))
+
+    @staticmethod
+    def _fresh_case(out_lines):
+        """From the observed output of a runtime case derive the configuration a fresh process has to load to
+        reach the same final live set and states; None when the case never loaded anything."""
+        nodes, pend_n, pend_d, live, states, periods = [], [], [], {}, {}, {}
+        loaded = False
+        for l in out_lines:
+            op = runner.strip_obs(l)
+            obs = l.split(" | ", 1)[1].split() if " | " in l else []
+            w = op.split()
+            if not w:
+                continue
+            if w[0] == "E":
+                break
+            if w[0] == "N":
+                pend_n.append(op)
+            elif w[0] == "D":
+                pend_d.append((int(w[1]), op))
+            elif w[0] == "L":
+                if obs[:1] == ["ok"]:
+                    nodes += pend_n
+                    for i, d in pend_d:
+                        live[i] = d
+                    loaded = True
+                elif not loaded:
+                    return None
+                pend_n, pend_d = [], []
+            elif w[0] == "A" and obs[:1] == ["ok"]:
+                live[int(w[1])] = "D " + " ".join(w[1:])
+            elif w[0] == "X" or (w[0] == "R" and obs[:1] == ["ok"]):
+                live.pop(int(w[1]), None)
+            elif w[0] == "S":
+                states[int(w[1])] = op
+            elif w[0] == "T":
+                periods[int(w[1])] = op
+        if not loaded:
+            return None
+        return (["C cfg fresh"] + nodes + [live[i] for i in sorted(live)] + ["L"] +
+                [states[i] for i in sorted(states)] + [periods[i] for i in sorted(periods)] + ["G", "Q -"])
+
+    @staticmethod
+    def _final_obs(out_lines):
+        g = [l for l in out_lines if l.startswith("G |")]
+        q = [l for l in out_lines if l.startswith("Q ")]
+        return (g[-1] if g else None, q[-1] if q else None)
+
+    def _fresh_differs(self, harness, case_lines):
+        """Run a runtime case and a fresh load of its final live set in two fresh processes; return the
+        combined evidence lines when the final group composition / registry size / reachability differ."""
+        f1, o1 = self.work("fresh_rt.ops"), self.work("fresh_rt.out")
+        with open(f1, "w") as fh:
+            fh.write("\n".join(runner.strip_obs(l) for l in case_lines) + "\nG\nQ -\n")
+        try:
+            rc, _ = self._harness_ops(harness, f1, o1, timeout=120)
+        except subprocess.TimeoutExpired:
+            return None
+        if rc != 0:
+            return None
+        rt_out = open(o1).read().splitlines()
+        if any(l.startswith("E ") for l in rt_out):
+            return None
+        fresh = self._fresh_case(rt_out)
+        if fresh is None:
+            return None
+        f2, o2 = self.work("fresh_fl.ops"), self.work("fresh_fl.out")
+        with open(f2, "w") as fh:
+            fh.write("\n".join(fresh) + "\n")
+        rc, _ = self._harness_ops(harness, f2, o2, timeout=120)
+        if rc != 0:
+            return None
+        fl_out = open(o2).read().splitlines()
+        if self._final_obs(rt_out) != self._final_obs(fl_out):
+            return rt_out + ["# fresh load of the same final set:"] + fl_out
+        return None
+
+    def _compare_fresh(self, res, harness, cases, out_dir):
+        """`equal to what a fresh load of the same set would give`, checked on the implementation alone."""
+        todo = []
+        for i, c in enumerate(cases):
+            if not c[0].startswith("C cfg rt"):
+                continue
+            rt_out = open(os.path.join(out_dir, f"case_{i}.out")).read().splitlines()
+            fresh = self._fresh_case(rt_out)
+            if fresh is not None and not any(l.startswith("E ") for l in rt_out):
+                todo.append((i, rt_out, fresh))
+
+        def one(t):
+            i, rt_out, fresh = t
+            opsf = os.path.join(out_dir, f"fresh_{i}.ops")
+            outf = os.path.join(out_dir, f"fresh_{i}.out")
+            with open(opsf, "w") as fh:
+                fh.write("\n".join(fresh) + "\n")
+            try:
+                rc, err = self._harness_ops(harness, opsf, outf, timeout=120)
+            except subprocess.TimeoutExpired:
+                return i, rt_out, None, "timeout"
+            return i, rt_out, (open(outf).read().splitlines() if rc == 0 else None), err
+
+        n = diffs = 0
+        with concurrent.futures.ThreadPoolExecutor(max_workers=min(16, os.cpu_count() or 4)) as ex:
+            for i, rt_out, fl_out, err in ex.map(one, todo):
+                if fl_out is None:
+                    raise core.TieBroken("harness:c07:fresh-run", f"case {i}: {err}")
+                n += 1
+                if self._final_obs(rt_out) != self._final_obs(fl_out):
+                    diffs += 1
+                    if diffs == 1:
+                        case = [l for l in rt_out]
+                        hdr, ops = case[:1], case[1:]
+                        ops = runner.ddmin(hdr, ops, lambda ls: self._fresh_differs(harness, ls) is not None)
+                        shown = self._fresh_differs(harness, hdr + ops) or (rt_out + ["# fresh load:"] + fl_out)
+                        res.spec_failures.append(runner.Finding("spec", "spec:C07:runtime_equals_fresh_load", shown,
+                                                                {"case": i}))
+        res.stats["fresh_load_compared"] = n
+        res.stats["fresh_load_differences"] = diffs
 
     @staticmethod
     def _split_cases(lines):
@@ -200,15 +323,22 @@ class C07(Check):
         if gp.returncode != 0:
             raise core.TieBroken("harness:c07:gencfg", gp.stderr[-2000:])
         cases = self._split_cases(gp.stdout.splitlines())
+        for c in cases:
+            if c[0].startswith("C cfg rt"):
+                c += ["G", "Q -"]          # final observation of the runtime cases (compared with a fresh load)
         save_cfg = self.work("cfg.out")
         self._run_cfg_cases(harness, cases, save_cfg)
         self._collect(res, self._drive(save_cfg, driver), save_cfg, harness, driver, "cfg")
+        self._compare_fresh(res, harness, cases, os.path.dirname(self.work("cfg", "x")))
+        if res.stats.get("fresh_load_compared", 0) == 0 or res.stats.get("cfg.runtime_refused", 0) == 0:
+            raise core.TieBroken("harness:c07:rt-coverage", f"runtime route not exercised: {res.stats}")
         samples += ["..."] + runner.extract_case(save_cfg, min(7, len(cases)))[:14]
 
         st = res.stats
         if st.get("cfg.loads_ok", 0) == 0 or st.get("cfg.loads_cycle", 0) == 0:
             raise core.TieBroken("harness:c07:cfg-coverage", f"config route did not see both outcomes: {st}")
-        res.evaluations = st.get("evaluations", 0) + st.get("loads_ok", 0) + st.get("loads_cycle", 0)
+        res.evaluations = (st.get("evaluations", 0) + st.get("loads_ok", 0) + st.get("loads_cycle", 0) + st.get("runtime_adds", 0)
+                           + st.get("groups_compared", 0) + st.get("fresh_load_compared", 0))
         res.distinct_nontrivial = st.get("nontrivial", 0)
         res.traces_validated = st.get("cases", 0)
         res.exhaustive = True
@@ -218,7 +348,11 @@ class C07(Check):
                     "assignments, seeded random acyclic graphs <= 10 nodes with interleaved add/remove/state/period operations, fixed "
                     "single-edge cycles (recursion limit), host chains of 255..300; cfg route: seeded random configurations (about half "
                     "cyclic, incl. service->host implicit edges and self-dependencies) loaded through ConfigCompiler/CommitItems/ActivateItems "
-                    "in one fresh process each, with a second runtime batch. evaluations = IsReachable answers compared (nodes x 3 aspects per "
+                    "in one fresh process each, with a second runtime batch; runtime route ('rt' cases): additions through "
+                    "ConfigObjectUtility::CreateObject (about 40% closing a cycle: must be refused and leave dependency counts, group "
+                    "composition and registry size unchanged), deletions through DeleteObject, GetDependencyGroups() composition and "
+                    "registry size compared with the registry model after every step, and the final state compared with a fresh process "
+                    "loading the same final set. evaluations = IsReachable answers compared (nodes x 3 aspects per "
                     "query) + loads; a case is non-trivial when some checkable was unreachable in some aspect or a load was rejected; "
                     "distinct by hash of the operation sequence (counted by the Lean driver)")
         res.samples = samples
